@@ -1443,18 +1443,21 @@ impl<'input, T: Input> Scanner<'input, T> {
         let start_mark = self.mark;
         self.skip_non_blank();
         self.skip_ws_to_eol(SkipTabs::Yes)?;
+        let end_mark = self.mark;
 
         // A flow collection within a flow mapping can be a key. In that case, the value may be
         // adjacent to the `:`.
         // ```yaml
         // - [ {a: b}:value ]
         // ```
+        // As after a quoted scalar, the `:` may also stand on a following line.
         if self.flow_level > 0 {
+            self.skip_to_next_token()?;
             self.adjacent_value_allowed_at = self.mark.index;
         }
 
         self.tokens
-            .push_back(Token(Span::new(start_mark, self.mark), tok));
+            .push_back(Token(Span::new(start_mark, end_mark), tok));
         Ok(())
     }
 
